@@ -58,6 +58,8 @@ package html
 
 //@ func Lexer.shiftEndTag
 //@   preserves[S] hScan(l)
+// white space between the tag name and '>' is not part of Text() (the name is compared with start-tag names)
+//@   ensures[F,C09,local] @name-trimmed: len(l.text) > 0 ==> l.text[len(l.text)-1] != ' ' && l.text[len(l.text)-1] != '\t' && l.text[len(l.text)-1] != '\n' && l.text[len(l.text)-1] != '\r'
 //@   ensures[F,C09] @lower: forall(k, 0, len(result), !isUpperC(result[k])) && l.inTag == old(l.inTag)
 //@   ensures[T]  sameMem(result, l.r.buf[old(l.r.start):l.r.pos]) && cap(result) == len(result)
 //@   ensures[T]  l.text == old(l.text) || within(l.text, result)
@@ -270,6 +272,20 @@ package html
 
 // ---- hash.go (C09, C16): soundness of the perfect hash: a non-zero result names exactly the argument
 //@ func ToHash
+// the generated tables are consistent with the constants: every table entry is a constant, every constant is in the
+// table, and a constant's offset and length select its own name (identifier in lower case, '_' for '-') in the text
+//@   ensures[F,C16] @table-entries: old(forall(i, 0, 16, _Hash_table[i] == 0 || _Hash_table[i] == Iframe || _Hash_table[i] == Math || _Hash_table[i] == Plaintext || _Hash_table[i] == Script || _Hash_table[i] == Style || _Hash_table[i] == Svg || _Hash_table[i] == Textarea || _Hash_table[i] == Title || _Hash_table[i] == Xml || _Hash_table[i] == Xmp))
+//@   ensures[F,C16] @constants-in-table: old(exists(i, 0, 16, _Hash_table[i] == Iframe) && exists(i, 0, 16, _Hash_table[i] == Math) && exists(i, 0, 16, _Hash_table[i] == Plaintext) && exists(i, 0, 16, _Hash_table[i] == Script) && exists(i, 0, 16, _Hash_table[i] == Style) && exists(i, 0, 16, _Hash_table[i] == Svg) && exists(i, 0, 16, _Hash_table[i] == Textarea) && exists(i, 0, 16, _Hash_table[i] == Title) && exists(i, 0, 16, _Hash_table[i] == Xml) && exists(i, 0, 16, _Hash_table[i] == Xmp))
+//@   ensures[F,C16] @text-iframe: old((Iframe & 0xff) == 6 && _Hash_text[(Iframe >> 8) + 0] == 'i' && _Hash_text[(Iframe >> 8) + 1] == 'f' && _Hash_text[(Iframe >> 8) + 2] == 'r' && _Hash_text[(Iframe >> 8) + 3] == 'a' && _Hash_text[(Iframe >> 8) + 4] == 'm' && _Hash_text[(Iframe >> 8) + 5] == 'e')
+//@   ensures[F,C16] @text-math: old((Math & 0xff) == 4 && _Hash_text[(Math >> 8) + 0] == 'm' && _Hash_text[(Math >> 8) + 1] == 'a' && _Hash_text[(Math >> 8) + 2] == 't' && _Hash_text[(Math >> 8) + 3] == 'h')
+//@   ensures[F,C16] @text-plaintext: old((Plaintext & 0xff) == 9 && _Hash_text[(Plaintext >> 8) + 0] == 'p' && _Hash_text[(Plaintext >> 8) + 1] == 'l' && _Hash_text[(Plaintext >> 8) + 2] == 'a' && _Hash_text[(Plaintext >> 8) + 3] == 'i' && _Hash_text[(Plaintext >> 8) + 4] == 'n' && _Hash_text[(Plaintext >> 8) + 5] == 't' && _Hash_text[(Plaintext >> 8) + 6] == 'e' && _Hash_text[(Plaintext >> 8) + 7] == 'x' && _Hash_text[(Plaintext >> 8) + 8] == 't')
+//@   ensures[F,C16] @text-script: old((Script & 0xff) == 6 && _Hash_text[(Script >> 8) + 0] == 's' && _Hash_text[(Script >> 8) + 1] == 'c' && _Hash_text[(Script >> 8) + 2] == 'r' && _Hash_text[(Script >> 8) + 3] == 'i' && _Hash_text[(Script >> 8) + 4] == 'p' && _Hash_text[(Script >> 8) + 5] == 't')
+//@   ensures[F,C16] @text-style: old((Style & 0xff) == 5 && _Hash_text[(Style >> 8) + 0] == 's' && _Hash_text[(Style >> 8) + 1] == 't' && _Hash_text[(Style >> 8) + 2] == 'y' && _Hash_text[(Style >> 8) + 3] == 'l' && _Hash_text[(Style >> 8) + 4] == 'e')
+//@   ensures[F,C16] @text-svg: old((Svg & 0xff) == 3 && _Hash_text[(Svg >> 8) + 0] == 's' && _Hash_text[(Svg >> 8) + 1] == 'v' && _Hash_text[(Svg >> 8) + 2] == 'g')
+//@   ensures[F,C16] @text-textarea: old((Textarea & 0xff) == 8 && _Hash_text[(Textarea >> 8) + 0] == 't' && _Hash_text[(Textarea >> 8) + 1] == 'e' && _Hash_text[(Textarea >> 8) + 2] == 'x' && _Hash_text[(Textarea >> 8) + 3] == 't' && _Hash_text[(Textarea >> 8) + 4] == 'a' && _Hash_text[(Textarea >> 8) + 5] == 'r' && _Hash_text[(Textarea >> 8) + 6] == 'e' && _Hash_text[(Textarea >> 8) + 7] == 'a')
+//@   ensures[F,C16] @text-title: old((Title & 0xff) == 5 && _Hash_text[(Title >> 8) + 0] == 't' && _Hash_text[(Title >> 8) + 1] == 'i' && _Hash_text[(Title >> 8) + 2] == 't' && _Hash_text[(Title >> 8) + 3] == 'l' && _Hash_text[(Title >> 8) + 4] == 'e')
+//@   ensures[F,C16] @text-xml: old((Xml & 0xff) == 3 && _Hash_text[(Xml >> 8) + 0] == 'x' && _Hash_text[(Xml >> 8) + 1] == 'm' && _Hash_text[(Xml >> 8) + 2] == 'l')
+//@   ensures[F,C16] @text-xmp: old((Xmp & 0xff) == 3 && _Hash_text[(Xmp >> 8) + 0] == 'x' && _Hash_text[(Xmp >> 8) + 1] == 'm' && _Hash_text[(Xmp >> 8) + 2] == 'p')
 //@   ensures[F,C16] @sound: result != 0 ==> len(s) == (result & 0xff) && forall(k, 0, len(s), _Hash_text[(result >> 8) + k] == s[k])
 //@   loop * candidate 0 <= i && i <= len(s)
 //@   loop * candidate len(t) == len(s)
